@@ -9,6 +9,10 @@
 //             ukf  GaussianFilter( UKFPrediction(additive LTI + exogenous), UKFCorrection(additive LTI) )
 //             sis  SIS( DrawParticles(LTI + exogenous), BootstrapCorrection(LTI, likelihood) )
 //             gpf  SIS( GPFPrediction(KFPrediction), GPFCorrection(likelihood, KFCorrection, transition) )
+//                               afterwait <kind> <seed> neverrun|rebooted read|destroy
+//       the owner's view after wait(): boot() [run(), steps, reboot()] teardown() wait(), then the owner
+//       reads the filter's results (plain state written by initialization_step / the steps) or destroys
+//       the filter at once.  wait() joins the filtering thread, so this is ordered — unless the join is lost.
 //   stdout:  ok kind=<kind> steps=<filter steps run> cmds=<commands issued> <command>=<count>… skip:<name>=<accepted>/<rejected>…
 //
 // The harness adds no synchronisation of its own between the two threads apart from counters that
@@ -138,6 +142,8 @@ protected:
         return { folder_path + "/" + file_name_prefix + "_pred_mean", folder_path + "/" + file_name_prefix + "_cor_mean" };
     }
     void log() override { logger(pred_.mean().transpose(), corr_.mean().transpose()); }
+public:
+    double result() const { return corr_.mean()(0) + corr_.covariance()(0, 0) + pred_.mean()(0); }   // owner reads the estimate
 private:
     Gaussian pred_, corr_;
 };
@@ -147,6 +153,8 @@ public:
     using SIS::SIS;
 protected:
     void filtering_step() override { SIS::filtering_step(); g_steps.fetch_add(1, std::memory_order_relaxed); }
+public:
+    double result() const { return pred_particle_.state(0, 0) + pred_particle_.weight(0) + cor_particle_.weight(0); }   // owner reads the particles
 };
 
 static std::unique_ptr<FilteringAlgorithm> make(const std::string& kind, unsigned seed) {
@@ -190,6 +198,8 @@ struct Ctl {
     void wait() { ++n_wait; f.wait(); }
     void step_number() { ++n_step_number; (void) f.step_number(); }
     void is_running() { ++n_is_running; (void) f.is_running(); }
+    long n_log_query = 0;
+    void log_query() { ++n_log_query; (void) f.get_folder_path().size(); (void) f.get_file_name_prefix().size(); }
     void skip(int n, bool on) {
         bool ok = false;
         try { ok = f.skip(kNames[n], on); } catch (const std::exception&) { }
@@ -229,8 +239,11 @@ static std::string run_case(const std::string& kind, unsigned seed, long rounds,
             c.skip(n, on); let_it_step(2); pause_us(r, pause);
             c.skip(n, !on); let_it_step(2); pause_us(r, pause);
         }
+        // stop and re-initialise request back to back while a step is still in flight
+        c.reboot(); c.reset(); pause_us(r, pause); c.is_running();
+        c.run(); let_it_step(2);
         // every query and lifecycle command at least once per round, in every phase of the recursion
-        c.is_running(); pause_us(r, pause); c.step_number();
+        c.is_running(); pause_us(r, pause); c.step_number(); c.log_query();
         c.reset(); let_it_step(2);
         c.reboot(); c.is_running(); pause_us(r, pause); c.step_number();   // on its way to / parked in the wait
         c.run(); let_it_step(2);
@@ -259,8 +272,51 @@ static std::string run_case(const std::string& kind, unsigned seed, long rounds,
     std::ostringstream os;
     os << "ok kind=" << kind << " logging=" << (logging ? 1 : 0) << " steps=" << g_steps.load(std::memory_order_relaxed) << " cmds=" << c.total()
        << " run=" << c.n_run << " reset=" << c.n_reset << " reboot=" << c.n_reboot << " teardown=" << c.n_teardown << " wait=" << c.n_wait
-       << " step_number=" << c.n_step_number << " is_running=" << c.n_is_running;
+       << " step_number=" << c.n_step_number << " is_running=" << c.n_is_running << " log_query=" << c.n_log_query;
     for (int n = 0; n < 6; ++n) os << " skip:" << kNames[n] << "=" << c.skip_ok[n] << "/" << c.skip_rej[n];
+    return os.str();
+}
+
+// advisory (not a command of the property): the owner reconfigures logging while the filter is stepping
+static std::string run_extlog(const std::string& kind, unsigned seed, const std::string& logdir) {
+    std::unique_ptr<FilteringAlgorithm> f = make(kind, seed);
+    if (!f) return "bad-kind";
+    g_steps.store(0, std::memory_order_relaxed);
+    f->enable_log(logdir, "ext_" + kind);
+    if (!f->boot()) return "boot-failed";
+    f->run(); let_it_step(3);
+    for (int i = 0; i < 6; ++i) { f->disable_log(); let_it_step(2); f->enable_log(logdir, "ext_" + kind); let_it_step(2); }
+    f->teardown(); f->wait();
+    std::ostringstream os;
+    os << "ok extlog kind=" << kind << " steps=" << g_steps.load(std::memory_order_relaxed);
+    return os.str();
+}
+
+static double read_result(FilteringAlgorithm* f) {
+    if (HGauss* g = dynamic_cast<HGauss*>(f)) return g->result();
+    if (HSis* s = dynamic_cast<HSis*>(f)) return s->result();
+    return 0.0;
+}
+
+static std::string run_afterwait(const std::string& kind, unsigned seed, const std::string& phase, const std::string& action) {
+    std::unique_ptr<FilteringAlgorithm> f = make(kind, seed);
+    if (!f) return "bad-kind";
+    g_steps.store(0, std::memory_order_relaxed);
+    if (!f->boot()) return "boot-failed";
+    if (phase == "rebooted") { f->run(); let_it_step(3); f->reboot(); usleep(200 + seed % 300); }
+    else if (phase != "neverrun") return "bad-phase";
+    f->teardown();
+    f->wait();
+    double r = 0.0;
+    if (action == "read") {
+        for (int i = 0; i < 20; ++i) { r += read_result(f.get()); r += f->step_number(); usleep(100); }
+        usleep(20000);
+    } else if (action == "destroy") {
+        f.reset();
+        usleep(20000);
+    } else return "bad-action";
+    std::ostringstream os;
+    os << "ok afterwait kind=" << kind << " phase=" << phase << " action=" << action << " steps=" << g_steps.load(std::memory_order_relaxed) << " r=" << (r == r ? 1 : 0);
     return os.str();
 }
 
@@ -271,6 +327,26 @@ int main() {
         std::istringstream is(line);
         std::string op, kind, logdir; unsigned seed = 0; long rounds = 1, pause = 100;
         is >> op >> kind >> seed >> rounds >> pause >> logdir;
+        if (op == "afterwait") {
+            // afterwait <kind> <seed> <phase> <action>: the remaining tokens were read into rounds/pause as text
+            std::istringstream is2(line);
+            std::string o2, k2, phase, action; unsigned s2 = 0;
+            is2 >> o2 >> k2 >> s2 >> phase >> action;
+            std::string out2;
+            try { out2 = run_afterwait(k2, s2, phase, action); }
+            catch (const std::exception& e) { out2 = std::string("throw:") + e.what(); }
+            std::cout << out2 << "\n" << std::flush;
+            continue;
+        }
+        if (op == "extlog") {
+            std::istringstream is3(line);
+            std::string o3, k3, d3; unsigned s3 = 0;
+            is3 >> o3 >> k3 >> s3 >> d3;
+            std::string out3;
+            try { out3 = run_extlog(k3, s3, d3); } catch (const std::exception& e) { out3 = std::string("throw:") + e.what(); }
+            std::cout << out3 << "\n" << std::flush;
+            continue;
+        }
         if (op != "race") { std::cout << "bad-op\n"; continue; }
         std::string out;
         try { out = run_case(kind, seed, rounds, pause, logdir); }
